@@ -45,7 +45,11 @@ def para(r, depth=0):
     p = PNode("e", "p" if depth == 0 else r.choice(["b", "i", "s", "a"]), [("k", r.choice(["1", "2"]))] if r.random() < 0.15 else [],
               sentence(r) + " " if r.random() < 0.8 else None, None)
     for _ in range(r.randint(0, 3 if depth == 0 else 1)):
-        if depth < 2 and r.random() < 0.7:
+        if depth < 2 and r.random() < 0.12:
+            # a text tag nested in a text tag (configurations with text_tags = ("p", "q")), with inline children of its own
+            c = para(r, depth + 1)
+            c.tag = "q"
+        elif depth < 2 and r.random() < 0.7:
             c = para(r, depth + 1)
         else:
             c = PNode("e", "br", [], None, None)
@@ -128,7 +132,18 @@ def tweak_texts(r, L, R):
         return [(n, a) for n in t.iter() for a in ("text", "tail") if getattr(n, a) and (a == "text" or n is not t) and (n.kind == "e" or a == "tail")]
 
     m = r.random()
-    if m < 0.25:
+    if m < 0.15:
+        # (d) a change of white space only inside a non-blank text: collapsed away under text normalisation, a real
+        # change without it
+        sl = [x for x in slots(R) if " " in getattr(*x).strip()]
+        if sl:
+            n, a = r.choice(sl)
+            s = getattr(n, a)
+            inner = [i for i, ch in enumerate(s) if ch == " " and s[:i].strip() and s[i:].strip()]
+            if inner:
+                i = r.choice(inner)
+                setattr(n, a, s[:i] + r.choice(["  ", " \n ", "\t", "   "]) + s[i + 1:])
+    elif m < 0.35:
         # (c) short strings over two letters in the same slot of both documents: dense in the corner cases of the merge passes
         k = r.randrange(1 << 30)
         for t in (L, R):
@@ -168,7 +183,7 @@ def rand_cfg(r, allow_tags=True):
     cfg = {"normalize": r.choice([0, 0, 1, 2, 3]), "pretty_print": r.random() < 0.3, "use_replace": r.random() < 0.3}
     m = r.random()
     if allow_tags and m < 0.4:
-        cfg["text_tags"] = ("p",)
+        cfg["text_tags"] = ("p",) if r.random() < 0.6 else ("p", "q")
         if r.random() < 0.7:
             cfg["formatting_tags"] = tuple(r.sample(["b", "i", "s", "a"], r.randint(1, 4)))
     return cfg
